@@ -141,7 +141,7 @@ namespace converter {
             result.update_after.insert(cfg.update_after[i]);
         }
         for (uint32_t i = 0; i < cfg.update_before_size; ++i) {
-            result.update_after.insert(cfg.update_before[i]);
+            result.update_before.insert(cfg.update_before[i]);
         }
         return result;
     }
